@@ -241,7 +241,7 @@ Definition step (c : cfg) (x : st) (o : op) : obs * st :=
            | Some n => (ON, set_tip x r n)
            | None => (OE "GhostRevisionsHaveNoRevno", x)
            end
-      else (OE (if remote c && hpss c then "NoSuchRevision" else "GhostRevisionsHaveNoRevno"), x)
+      else (OE (if remote c then "NoSuchRevision" else "GhostRevisionsHaveNoRevno"), x)
                                                     (* candidate finding C32-genhist-absent-class *)
   end.
 
